@@ -36,6 +36,9 @@ def bases(tier):
         out.append(B("S4", [("g.c", "g.h"), ("d", "g")], ("end", None), "rel", None, True, mode))
         out.append(B("S4", [("g.h.b", "g.h.a"), ("d", "g.h.b")], ("end", "1d") if mode == "asap" else ("end", None), "abs", None, True, mode))
         out.append(B("S5", [("g.b", "a"), ("g.c", "g.b")], ("end", None), "abs", None, True, mode))
+        # relative references whose remainder is a dotted path ('!h.a', '!!h.a', '!g.h.b')
+        out.append(B("S4", [("g.c", "g.h.a"), ("d", "g.h.b")], ("end", None), "rel", None, True, mode))
+        out.append(B("S6", [("g.k.c", "g.h.a"), ("g.k.d", "g.h")], ("end", None), "rel", None, True, mode))
     out.append(B("S3", [("h.c", "g.a"), ("h", "g")], ("start", "30min"), "rel", None, True, "asap"))
     # absolute references to top-level tasks declared AFTER nested tasks (root lookup must not be captured by a nested short id)
     out.append(B("S2", [("g.a", "c")], ("end", None), "abs", None, True, "asap"))
@@ -271,7 +274,7 @@ def universe(tier):
         yield {"bi": bi, "kind": "orig"}
         for name, _s2, _m in rewrites_spec(spec):
             yield {"bi": bi, "kind": "spec", "name": name}
-        for name, _t in text_rewrites(text, tier, dense=(bi in (1, 17) or tier == "thorough")):
+        for name, _t in text_rewrites(text, tier, dense=(bi in (1, len(bs) - 1) or tier == "thorough")):
             yield {"bi": bi, "kind": "text", "name": name}
 
 
